@@ -1,0 +1,26 @@
+//go:build verif
+
+// Contracts for deductive verification (read as text by /verif/engine; this
+// file is never compiled into the package: it is comment-only and guarded
+// by the build tag verif).
+
+package dep
+
+// C19: a dependency type orders and clones as its attribute set does
+// (attr.Set's contracts are in util/resolve/internal/attr).
+
+//@ lemma Type.Compare.order
+//@   vars a, b, c Type
+//@   unfold Type.Compare Type.Equal
+//@   ensures a.Compare(a) == 0
+//@   ensures a.Compare(b) == -b.Compare(a)
+//@   ensures imp(a.Compare(b) <= 0 && b.Compare(c) <= 0, a.Compare(c) <= 0)
+//@   ensures a.Equal(b) == (a.Compare(b) == 0)
+//@   property C19
+
+//@ func (*Type).Clone
+//@   requires t != nil
+//@   ensures result.set.Mask == t.set.Mask && result.set.attrBits == t.set.attrBits && fresh(result.set.attrs)
+//@   ensures forall(k, 0, 256, has(result.set.attrs, uint8(k)) == has(t.set.attrs, uint8(k)) &&
+//@                  imp(has(t.set.attrs, uint8(k)), result.set.attrs[uint8(k)] == t.set.attrs[uint8(k)]))
+//@   property C19
